@@ -21,7 +21,7 @@ ASSUMPTIONS = ['tapers are those returned by dpss of the same tree (their correc
 
 def bounds(tier):
     q = tier == 'quick'
-    return {'N': [16, 17, 32] if q else [16, 17, 32, 64, 256, 1024], 'NW': [1.5, 2, 2.5, 4, 1.8, 2.3], 'k': 'default and every 2..floor(2NW)', 'NFFT': 'N, N+1, 2N, 2N+1',
+    return {'N': [16, 17, 32] if q else [16, 17, 32, 64, 256, 1024], 'NW': [1.5, 2, 2.5, 4, 1.8, 2.3, 8], 'k': 'default and every 2..floor(2NW)', 'NFFT': 'N, N+1, 2N, 2N+1',
             'methods': ['unity', 'eigen', 'adapt'], 'families': 'noise-like + tones, real and complex', 'histories': 'every ordered pair of (NW in {2,2.5,4}) x (k in {default,3}) x (unity, adapt) on one object, recomputed explicitly'}
 
 
@@ -34,14 +34,14 @@ def shards(tier):
     out = []
     for N in ([16, 17, 32] if q else [16, 17, 32, 64, 256, 1024]):
         for cplx in (False, True):
-            for NW in (1.5, 2.0, 2.5, 4.0, 1.8, 2.3):
+            for NW in (1.5, 2.0, 2.5, 4.0, 1.8, 2.3, 8.0):
                 out.append((N, cplx, NW))
     return out
 
 
 def run_shard(desc, R, tier):
     N, cplx, NW = desc
-    if not NW < N / 2.0:
+    if not NW < N / 2.0 or (NW >= 8 and N < 32):
         return
     fam = (A.gen_cplx(N) + A.tones_cplx(N)) if cplx else (A.gen_real(N) + A.tones_real(N))
     if not cplx and NW in (2.0, 2.3):
@@ -51,6 +51,9 @@ def run_shard(desc, R, tier):
     elif tier == 'quick':
         fam = fam[::3]
     ks = [None] + list(range(2, int(math.floor(2 * NW)) + 1))
+    if NW >= 8:
+        ks = [None, 8]
+        fam = fam[:2]
     if N >= 256:
         ks = [None, int(math.floor(2 * NW))]
     if NW == 2.5 and N <= 64:
@@ -139,7 +142,7 @@ def eval_point(pt, R):
         with np.errstate(all='ignore'):
             Sfrom = a * b / den
         # tapers with 1-lam ~ 0 carry no information on S (b ~ 1/lam whatever S): use the others
-        info = ((1.0 - lam) > 1e-9)
+        info = ((1.0 - lam) > 1e-4)      # tapers with 1-lam ~ 0 carry no information on S (the inversion is ill-conditioned)
         good = True
         if info.sum() >= 2:
             Sg = Sfrom[:, info]
@@ -147,17 +150,20 @@ def eval_point(pt, R):
             spread = np.max(np.abs(Sg - S0[:, None]), axis=1)
             good = bool(np.all(spread <= 1e-5 * np.maximum(S0, 1e-300) + 1e-9 * sig2)) and bool(np.all(S0 >= 0))
         else:
-            S0 = Sfrom[:, np.argmax(1.0 - lam)]
+            S0 = None
         R.check(good, 'weights_adapt', feats, pt, None, None, "adaptive weights are not Thomson's formula evaluated at one non-negative spectrum per frequency")
         S1 = np.sum(w * P.T, axis=1) / np.sum(w, axis=1)
-        resid = float(np.mean(np.abs(S0 - S1)))
         tol = 0.0005 * sig2 / nf
+        resid = float(np.mean(np.abs(S0 - S1))) if S0 is not None else None
         # reference iteration: how many steps does Thomson's iteration need on this point?  The routine caps at 100.
         Sref, wref, nit = rmtm.adaptive(P, lam, sig2, tol, maxit=200)
         if nit >= 100:
             R.skip('adapt_iteration_needs>=100_steps(cap of the routine)')
         else:
-            R.check(resid <= tol * (1 + 1e-6) + 1e-12 * sig2, 'adapt_fixed_point', feats, pt, resid, tol,
+            if resid is None:
+                R.skip('thomson_inversion_ill_conditioned(all 1-lambda < 1e-4)')      # the weights are still compared with the reference iteration below
+            else:
+              R.check(resid <= tol * (1 + 1e-6) + 1e-12 * sig2, 'adapt_fixed_point', feats, pt, resid, tol,
                     'the spectrum behind the adaptive weights is not a fixed point of the weighted mean within the documented tolerance although the reference iteration converges in %d steps' % nit,
                     err=resid / max(tol, 1e-300))
             R.check(close(w, wref, 1e-6, 1e-9), 'weights_adapt', dict(feats, sub='reference_iteration'), pt, w, wref,
